@@ -26,6 +26,7 @@ import (
 	"sort"
 	"strconv"
 	"strings"
+	"time"
 
 	"github.com/opencontainers/go-digest"
 	ocispec "github.com/opencontainers/image-spec/specs-go/v1"
@@ -163,6 +164,255 @@ func rawTarget(link string) (string, bool) {
 	return "", false
 }
 
+// ---------- the string level: raw requests against Model/PagingUrl.v ----------
+
+// stringCases emits, for one listing, the raw query of the first request and for every answer
+// the step "request URL + Link header -> path and raw query of the next request".
+func stringCases(sc *Scenario, log []*fakereg.Exchange, outcome string) {
+	if len(log) == 0 {
+		return
+	}
+	if x := log[0]; x.Kind != 'M' {
+		id := run.NewID()
+		run.Case(id, fmt.Sprintf("U0 %s %d %s %s", sc.Kind, sc.N, common.Hex(sc.AT), common.Hex(sc.Last)), common.Hex(x.RawQuery))
+		run.Count("string_first_request")
+	}
+	for i, x := range log {
+		if x.Kind == 'M' || x.Status != 200 {
+			continue
+		}
+		var obs string
+		switch {
+		case i+1 < len(log) && log[i+1].Kind != 'M':
+			obs = "NEXT " + common.Hex(log[i+1].SentPath) + " " + common.Hex(log[i+1].RawQuery)
+		case i+1 < len(log):
+			continue
+		case outcome == "Done":
+			obs = "NONE"
+		case outcome == "ErrLink":
+			obs = "ERRLINK"
+		case outcome == "ErrResolve":
+			obs = "ERRRESOLVE"
+		default:
+			continue
+		}
+		if i > 3 && !run.Rand.Chance(1, 3) {
+			continue
+		}
+		id := run.NewID()
+		run.Case(id, fmt.Sprintf("U %s %d %s %s %s %s %s", sc.Kind, sc.N, common.Hex("http"), common.Hex(host), common.Hex(x.Path), common.Hex(x.RawQuery), common.Hex(x.Link)), obs)
+		run.Count("string_next_request_" + strings.SplitN(obs, " ", 2)[0])
+	}
+}
+
+func setQueryCase(raw string, kv ...string) {
+	id := run.NewID()
+	toks := make([]string, len(kv))
+	for i, s := range kv {
+		toks[i] = common.Hex(s)
+	}
+	got := remote.VerifSetQueryParams(raw, kv...)
+	run.Case(id, "QS "+common.Hex(raw)+" "+strings.Join(toks, " "), common.Hex(got))
+	run.Count("string_set_query")
+	run.Nontrivial("QS" + raw + strings.Join(kv, "\x00"))
+	// oracle: a registry reading the result sees every other parameter as before and the new values
+	before, after := fakereg.ParseQueryLenient(raw), fakereg.ParseQueryLenient(got)
+	set := map[string]string{}
+	for i := 0; i+1 < len(kv); i += 2 {
+		set[kv[i]] = kv[i+1]
+	}
+	rep := map[string]any{"op": "setquery", "raw": raw, "kv": kv}
+	for k, v := range set {
+		if vs := after[k]; len(vs) != 1 || vs[0] != v {
+			run.OracleFail(id, "set-query", fmt.Sprintf("setQueryParams(%q, %q) = %q: %q is %q", raw, kv, got, k, vs), rep)
+		}
+	}
+	for k, vs := range before {
+		if _, ok := set[k]; !ok && strings.Join(after[k], "\x00") != strings.Join(vs, "\x00") {
+			run.OracleFail(id, "set-query", fmt.Sprintf("setQueryParams(%q, %q) = %q: %q was %q, is %q", raw, kv, got, k, vs, after[k]), rep)
+		}
+	}
+	for k := range after {
+		if _, ok := before[k]; !ok {
+			if _, ok := set[k]; !ok {
+				run.OracleFail(id, "set-query", fmt.Sprintf("setQueryParams(%q, %q) = %q: new parameter %q", raw, kv, got, k), rep)
+			}
+		}
+	}
+}
+
+func escapeCase(s string) {
+	id := run.NewID()
+	un := "!"
+	if u, err := url.QueryUnescape(s); err == nil {
+		un = common.Hex(u)
+	}
+	esc := url.QueryEscape(s)
+	run.Case(id, "QE "+common.Hex(s), common.Hex(esc)+" "+un)
+	run.Count("string_escape")
+	if back, err := url.QueryUnescape(esc); err != nil || back != s {
+		run.OracleFail(id, "escape-roundtrip", fmt.Sprintf("QueryUnescape(QueryEscape(%q)) = %q, %v", s, back, err), map[string]any{"op": "escape", "s": s})
+	}
+	id2 := run.NewID()
+	kvs := valuesKVs(fakereg.ParseQueryLenient(s))
+	run.Case(id2, "QL "+common.Hex(s), obsQuery(kvs))
+}
+
+func resolveCase(bpath, bquery, ref string) {
+	id := run.NewID()
+	base := &url.URL{Scheme: "http", Host: host, Path: bpath, RawQuery: bquery}
+	obs := "ERR"
+	if u, err := base.Parse(ref); err == nil {
+		if u2, err := url.Parse(u.String()); err == nil {
+			obs = fmt.Sprintf("OK %s %s %s %s", common.Hex(u2.Scheme), common.Hex(u2.Host), common.Hex(u2.EscapedPath()), common.Hex(u2.RawQuery))
+		}
+	}
+	run.Case(id, fmt.Sprintf("RR %s %s %s %s %s", common.Hex("http"), common.Hex(host), common.Hex(bpath), common.Hex(bquery), common.Hex(ref)), obs)
+	run.Count("string_resolve_" + obs[:2])
+	run.Nontrivial("RR" + bpath + "?" + bquery + " " + ref)
+}
+
+// ---------- json.Decoder: the first value of a stream is self-delimiting ----------
+
+func genJSON(r *common.Rand, depth int, top bool) string {
+	ws := func() string { return common.Pick(r, []string{"", "", "", " ", "\n", "\t ", "  "}) }
+	str := func() string {
+		var sb strings.Builder
+		sb.WriteByte('"')
+		for i := r.Intn(5); i > 0; i-- {
+			sb.WriteString(common.Pick(r, []string{"a", "tag", "{", "}", "[", "]", "\\\"", "\\\\", "\\u00e9", "\\n", " ", ",", ":", "sha256:ab", "ü", "\\/"}))
+		}
+		sb.WriteByte('"')
+		return sb.String()
+	}
+	k := r.Intn(7)
+	if top || (depth > 0 && k < 2) {
+		if r.Bool() {
+			var sb strings.Builder
+			sb.WriteString("{" + ws())
+			for i, n := 0, r.Intn(4); i < n; i++ {
+				if i > 0 {
+					sb.WriteString("," + ws())
+				}
+				sb.WriteString(str() + ws() + ":" + ws() + genJSON(r, depth-1, false) + ws())
+			}
+			return sb.String() + "}"
+		}
+		var sb strings.Builder
+		sb.WriteString("[" + ws())
+		for i, n := 0, r.Intn(4); i < n; i++ {
+			if i > 0 {
+				sb.WriteString("," + ws())
+			}
+			sb.WriteString(genJSON(r, depth-1, false) + ws())
+		}
+		return sb.String() + "]"
+	}
+	switch k {
+	case 2, 3:
+		return str()
+	case 4:
+		return common.Pick(r, []string{"0", "-1", "12.5e3", "7"})
+	}
+	return common.Pick(r, []string{"true", "false", "null"})
+}
+
+func jsonCase(input string, doc string, lead int, complete bool) {
+	id := run.NewID()
+	dec := json.NewDecoder(strings.NewReader(input))
+	var v any
+	err := dec.Decode(&v)
+	obs := "INC"
+	if err == nil {
+		obs = fmt.Sprintf("OK %d", dec.InputOffset())
+	}
+	run.Case(id, "J "+common.Hex(input), obs)
+	run.Count("json_" + obs[:2])
+	rep := map[string]any{"op": "json", "input": input, "doc": doc, "lead": lead, "complete": complete}
+	// oracle: exactly the whole document is a value; what follows it is not touched
+	if complete {
+		var want any
+		if json.Unmarshal([]byte(doc), &want) != nil {
+			return
+		}
+		wj, _ := json.Marshal(want)
+		gj, _ := json.Marshal(v)
+		if err != nil || int(dec.InputOffset()) != lead+len(doc) || string(wj) != string(gj) {
+			run.OracleFail(id, "json-self-delimiting", fmt.Sprintf("document %q followed by more input: Decode = %s, %v at offset %d", doc, gj, err, dec.InputOffset()), rep)
+		}
+	} else if err == nil {
+		run.OracleFail(id, "json-self-delimiting", fmt.Sprintf("proper prefix %q of document %q decoded without error", input, doc), rep)
+	}
+}
+
+func genJSONCases(r *common.Rand) {
+	for i := 0; i < run.Scale(150, 3000); i++ {
+		doc := genJSON(r, 3, true)
+		lead := common.Pick(r, []string{"", "", " ", "\n\t"})
+		jsonCase(lead+doc, doc, len(lead), true)
+		jsonCase(lead+doc+common.Pick(r, []string{" ", "\n", "}", "]", "{\"tags\":[\"zzz\"]}", "x", "\"", " null"}), doc, len(lead), true)
+		full := lead + doc
+		for j := 0; j < 6; j++ {
+			k := r.Intn(len(full))
+			jsonCase(full[:k], doc, len(lead), false)
+		}
+		if len(full) < 40 {
+			for k := 0; k < len(full); k++ {
+				jsonCase(full[:k], doc, len(lead), false)
+			}
+		}
+	}
+}
+
+var refPieces = []string{"http://", "https://", "HTTP://", "//", "/", "./", "../", "..", ".", "?", "&", "=", ";", ":", "a", "b.c", "v2", "list",
+	"%41", "%zz", "reg.test", "reg.test:5000", "other.io", "@", "#", " ", "~p", "x=1", "last=a%2Fb", "n=2", "+", "sha256:ab", "ü", "///", "?"}
+
+func genStrings(r *common.Rand) {
+	bases := [][2]string{{"/v2/repo/tags/list", "n=2&last=a"}, {"/v2/_catalog", ""}, {"/v2/a/b/referrers/sha256:ab", "artifactType=x%2Fy"}, {"/v2/repo/tags/list/~p", "token=p;a"}, {"/", ""}, {"/v2/", "x"}}
+	for i := 0; i < run.Scale(1500, 40000); i++ {
+		var sb strings.Builder
+		for j := r.Intn(6); j >= 0; j-- {
+			sb.WriteString(common.Pick(r, refPieces))
+		}
+		b := common.Pick(r, bases)
+		resolveCase(b[0], b[1], sb.String())
+	}
+	for _, ref := range []string{"", "?", "?x", "/", "//reg.test", "//reg.test/", "http://reg.test", "http://reg.test?x=1", ".", "..", "./", "../", "../..", "../../../x", "a/./b/../c", "/a/../../b", "x:y", "./x:y", "/x:y", "?a:b", "http:/x", "http:x", "///x", "list?last=b", "./list?last=b", "../list/~p?t=1", "?last=b;1", "?t=%zz"} {
+		for _, b := range bases {
+			resolveCase(b[0], b[1], ref)
+		}
+	}
+	// small scope, exhaustively: every reference over a few pieces up to a length
+	alpha := []string{"/", ".", "?", ":", "a", "%", "h", "#", "=", "&"}
+	var rec func(prefix string, depth int)
+	rec = func(prefix string, depth int) {
+		resolveCase("/v2/r/tags/list", "n=2", prefix)
+		if depth == 0 {
+			return
+		}
+		for _, a := range alpha {
+			rec(prefix+a, depth-1)
+		}
+	}
+	rec("", run.Scale(3, 5))
+	raws := []string{"", "n=1", "last=a&n=5", "x=1&n=3&y=2&n=4", "tok=a;b&n=1", "t=%zz&last=q", "%6e=7&x", "&&a=1&&", "n", "n=", "=v", "a=b=c", "la%73t=z&k;1=v", "u=100%&n=2", "last=a+b&LAST=c"}
+	vals := []string{"", "3", "a b", "a/b?c", "ü&=", "%41", "+", "x;y", "~._-"}
+	for _, raw := range raws {
+		for _, v := range vals {
+			setQueryCase(raw, "n", v)
+			setQueryCase(raw, "n", "2", "last", v)
+			setQueryCase(raw, "last", v)
+		}
+	}
+	for i := 0; i < run.Scale(300, 5000); i++ {
+		var sb strings.Builder
+		for j := r.Intn(8); j >= 0; j-- {
+			sb.WriteString(common.Pick(r, []string{"a", "Z", "9", "-", "_", ".", "~", " ", "+", "%", "%4", "%41", "%zz", "%C3%BC", "&", "=", ";", "/", "?", "ü", "\x00", "\xff", "n", "last"}))
+		}
+		escapeCase(sb.String())
+	}
+}
+
 // ---------- running one scenario ----------
 
 func classify(err error) string {
@@ -206,6 +456,32 @@ func basePath(sc *Scenario) string {
 		return "/v2/" + sc.Repo + "/tags/list"
 	}
 	return "/v2/" + sc.Repo + "/referrers/" + subject.String()
+}
+
+// ---------- watchdog: a call into the implementation that does not come back ----------
+
+var errHang = errors.New("the implementation call did not return within the watchdog time")
+
+const watchdog = 20 * time.Second
+
+// guarded runs one call into the implementation; a wedge (lock, channel, endless loop) becomes errHang.
+func guarded(f func() error) error {
+	done := make(chan error, 1)
+	go func() { done <- f() }()
+	select {
+	case err := <-done:
+		return err
+	case <-time.After(watchdog):
+		return errHang
+	}
+}
+
+// hangExit records the hang as an oracle failure with its replay and ends the run at once (the
+// wedged goroutine still owns the case's data; nothing else is written after this point).
+func hangExit(id string, rep any, what string) {
+	run.OracleFail(id, "hang", what+": no return within "+watchdog.String(), rep)
+	run.Finish()
+	os.Exit(4)
 }
 
 func indexDoc(items []fakereg.Item, size int) []byte {
@@ -274,12 +550,12 @@ func execute(sc *Scenario) (reg *fakereg.Registry, pages [][]fakereg.Item, logAt
 			panic(e)
 		}
 		r.PlainHTTP, r.Client, r.RepositoryListPageSize, r.MaxMetadataBytes = true, reg.Client(), sc.N, sc.Limit
-		err = r.Repositories(ctx, sc.Last, strs)
+		err = guarded(func() error { return r.Repositories(ctx, sc.Last, strs) })
 	case "T":
 		reg.Tags[sc.Repo] = sc.Items
 		r := &remote.Repository{Reference: registry.Reference{Registry: host, Repository: sc.Repo}, PlainHTTP: true,
 			Client: reg.Client(), TagListPageSize: sc.N, MaxMetadataBytes: sc.Limit}
-		err = r.Tags(ctx, sc.Last, strs)
+		err = guarded(func() error { return r.Tags(ctx, sc.Last, strs) })
 	case "R":
 		reg.Referrers[sc.Repo+"@"+subject.String()] = sc.Items
 		r := &remote.Repository{Reference: registry.Reference{Registry: host, Repository: sc.Repo}, PlainHTTP: true,
@@ -292,14 +568,18 @@ func execute(sc *Scenario) (reg *fakereg.Registry, pages [][]fakereg.Item, logAt
 			r.SetReferrersCapability(true)
 		}
 		desc := ocispec.Descriptor{MediaType: ocispec.MediaTypeImageManifest, Digest: subject, Size: 7}
-		err = r.Referrers(ctx, desc, sc.AT, func(ds []ocispec.Descriptor) error {
-			p := make([]fakereg.Item, len(ds))
-			for i, d := range ds {
-				p[i] = fakereg.Item{Name: d.Digest.String(), ArtifactType: d.ArtifactType}
-			}
-			return onPage(p)
+		err = guarded(func() error {
+			return r.Referrers(ctx, desc, sc.AT, func(ds []ocispec.Descriptor) error {
+				p := make([]fakereg.Item, len(ds))
+				for i, d := range ds {
+					p[i] = fakereg.Item{Name: d.Digest.String(), ArtifactType: d.ArtifactType}
+				}
+				return onPage(p)
+			})
 		})
-		finalState = remote.VerifReferrersState(r)
+		if !errors.Is(err, errHang) {
+			finalState = remote.VerifReferrersState(r)
+		}
 	default:
 		panic("kind " + sc.Kind)
 	}
@@ -437,6 +717,9 @@ func listCase(sc *Scenario) {
 	sc.Op = "list"
 	id := run.NewID()
 	reg, pages, logAtFail, err := execute(sc)
+	if errors.Is(err, errHang) {
+		hangExit(id, sc, "listing "+sc.Kind)
+	}
 	outcome := classify(err)
 	fail := func(sig, msg string) {
 		// known finding: parseLink takes the first link-value whatever its relation type.  Only the
@@ -470,6 +753,51 @@ func listCase(sc *Scenario) {
 	scjs, _ := json.Marshal(sc)
 	run.Case(id, strings.TrimRight(model, " ")+" J"+common.Hex(string(scjs)), obs)
 	run.TracesAgainstImpl++
+	// the same run against the page loop on strings (Model/PagingUrl.v loop_s): raw requests, byte for byte
+	redirected := false
+	var rawReqs []string
+	for _, x := range reg.Log {
+		redirected = redirected || x.SentPath != x.Path
+		rawReqs = append(rawReqs, common.Hex(x.SentPath)+"?"+common.Hex(x.RawQuery))
+	}
+	if !redirected && len(rawReqs) > 0 {
+		csid := run.NewID()
+		run.Case(csid, "CS "+common.Hex("http")+" "+common.Hex(host)+" "+strings.TrimRight(strings.TrimPrefix(model, "C "), " "),
+			fmt.Sprintf("R %s P %d %s O %s", strings.Join(rawReqs, "|"), len(pages), ps, outcome))
+		run.Count("string_loop")
+	}
+
+	stringCases(sc, reg.Log, outcome)
+	// how many bytes of each decoded answer were consumed: the model of limitReader + decoder buffering
+	for _, x := range reg.Log {
+		if x.Status == 200 && x.JSONOK && x.Kind != 'M' && (x.Kind != 'R' || x.CType == ocispec.MediaTypeImageIndex) &&
+			!(x.Dec.NullBody == 1 && len(x.Page) == 0) && run.Rand.Chance(1, 3) {
+			bid := run.NewID()
+			run.Case(bid, fmt.Sprintf("RB %d %d %d", sc.Limit, x.DocLen, x.TotalLen), strconv.Itoa(x.BytesRead()))
+			run.Count("bytes_consumed")
+			if int64(x.DocLen) > effLimit(sc.Limit) || x.TotalLen > 512 {
+				run.Count("bytes_consumed_nontrivial")
+			}
+		}
+	}
+	// the document length the fake declares (model input rs_doc_len) is where the decoder -- and the
+	// bracket scanner of Model/PagingJson.v -- find the end of the first value of the body
+	for _, x := range reg.Log {
+		if x.Status == 200 && x.JSONOK && x.Body != nil && len(x.Body) > 0 && x.Body[x.DocLen-1] == '}' && run.Rand.Chance(1, 8) {
+			jid := run.NewID()
+			dec := json.NewDecoder(bytes.NewReader(x.Body))
+			var v any
+			obs := "INC"
+			if err := dec.Decode(&v); err == nil {
+				obs = fmt.Sprintf("OK %d", dec.InputOffset())
+			}
+			run.Case(jid, "J "+common.Hex(string(x.Body)), obs)
+			run.Count("json_listing_body")
+			if obs != fmt.Sprintf("OK %d", x.DocLen) {
+				run.OracleFail(jid, "fake-registry-illegal", fmt.Sprintf("fake registry declares a document of %d bytes, the decoder says %s", x.DocLen, obs), sc)
+			}
+		}
+	}
 
 	// ----- the oracle -----
 	var expected []fakereg.Item
@@ -789,6 +1117,105 @@ func regPageReplay(rp *RegPage) {
 	resp.Body.Close()
 	if reg.Log[0].Status == 200 {
 		regPageCase(rp.Kind, rp.Items, reg.Cap, rp.CursorKey, rp.CursorSalt, rp.Hidden, reg.Log[0])
+	}
+}
+
+// collectCase runs the same scenario through the helpers that collect a whole listing:
+// registry.Tags, registry.Repositories, registry.Referrers and Repository.Predecessors.
+func collectCase(sc *Scenario) {
+	id := run.NewID()
+	reg := fakereg.New(host)
+	reg.Cap = max(sc.Cap, 1)
+	reg.MaxRequests = len(sc.Items) + 8
+	reg.CursorKey, reg.CursorSalt, reg.Hidden = sc.CursorKey, sc.CursorSalt, hiddenSet(sc.Hidden)
+	reg.Decide = func(x *fakereg.Exchange) fakereg.Decision {
+		if i := len(reg.Log) - 1; i < len(sc.Decs) {
+			return sc.Decs[i]
+		}
+		return fakereg.Decision{M: 1000}
+	}
+	ctx := context.Background()
+	var got []fakereg.Item
+	var err error
+	switch sc.Kind {
+	case "K":
+		reg.Repos = sc.Items
+		r, e := remote.NewRegistry(host)
+		if e != nil {
+			return
+		}
+		r.PlainHTTP, r.Client, r.RepositoryListPageSize, r.MaxMetadataBytes = true, reg.Client(), sc.N, sc.Limit
+		err = guarded(func() error {
+			ss, e := registry.Repositories(ctx, r)
+			got = fakereg.Names(ss...)
+			return e
+		})
+	case "T":
+		reg.Tags[sc.Repo] = sc.Items
+		r := &remote.Repository{Reference: registry.Reference{Registry: host, Repository: sc.Repo}, PlainHTTP: true,
+			Client: reg.Client(), TagListPageSize: sc.N, MaxMetadataBytes: sc.Limit}
+		err = guarded(func() error {
+			ss, e := registry.Tags(ctx, r)
+			got = fakereg.Names(ss...)
+			return e
+		})
+	default:
+		reg.Referrers[sc.Repo+"@"+subject.String()] = sc.Items
+		r := &remote.Repository{Reference: registry.Reference{Registry: host, Repository: sc.Repo}, PlainHTTP: true,
+			Client: reg.Client(), ReferrerListPageSize: sc.N, MaxMetadataBytes: sc.Limit}
+		r.SetReferrersCapability(true)
+		desc := ocispec.Descriptor{MediaType: ocispec.MediaTypeImageManifest, Digest: subject, Size: 7}
+		err = guarded(func() error {
+			var ds []ocispec.Descriptor
+			var e error
+			if sc.AT == "" && len(sc.Items)%2 == 0 {
+				ds, e = r.Predecessors(ctx, desc)
+			} else {
+				ds, e = registry.Referrers(ctx, r, desc, sc.AT)
+			}
+			for _, d := range ds {
+				got = append(got, fakereg.Item{Name: d.Digest.String(), ArtifactType: d.ArtifactType})
+			}
+			return e
+		})
+	}
+	if errors.Is(err, errHang) {
+		hangExit(id, sc, "collecting helper "+sc.Kind)
+	}
+	outcome := classify(err)
+	_, resp := clientTokens(reg.Log)
+	var q0 []fakereg.KV
+	if sc.Kind == "R" && sc.AT != "" {
+		q0 = []fakereg.KV{{K: "artifactType", V: sc.AT}}
+	}
+	model := fmt.Sprintf("CA %s %d %d %s - -1 %s %s %d %s", sc.Kind, sc.N, sc.Limit, common.Hex(sc.AT),
+		common.Hex(basePath(sc)), kvsTok(q0), len(resp), strings.Join(resp, " "))
+	if err != nil {
+		got = nil
+	}
+	run.Case(id, strings.TrimRight(model, " "), fmt.Sprintf("I %s O %s", itemsTok(got), outcome))
+	run.Count("collect_" + sc.Kind + "_" + outcome)
+	// oracle: an undisturbed registry -> everything it shows, once, in order
+	clean := true
+	for _, x := range reg.Log {
+		if x.Status != 200 || !x.JSONOK || x.Dec.RawLink != nil || x.Dec.PreFirst != 0 || (x.Kind == 'R' && x.CType != ocispec.MediaTypeImageIndex) || int64(x.DocLen) > effLimit(sc.Limit) {
+			clean = false
+		}
+	}
+	if clean {
+		var expected []fakereg.Item
+		for _, it := range visible(sc.Items, sc.Hidden) {
+			if sc.Kind != "R" || sc.AT == "" || it.ArtifactType == sc.AT {
+				expected = append(expected, it)
+			}
+		}
+		rep := *sc
+		rep.Op = "collect"
+		if err != nil {
+			run.OracleFail(id, "spurious-error", fmt.Sprintf("collecting %s failed: %v", sc.Kind, err), rep)
+		} else if !sameItems(got, expected) {
+			run.OracleFail(id, "exactly-once", fmt.Sprintf("collecting %s returned %s, registry shows %s", sc.Kind, showNames(got), showNames(expected)), rep)
+		}
 	}
 }
 
@@ -1228,6 +1655,9 @@ func wrapCase(sc *Scenario) {
 	}
 	id := run.NewID()
 	reg, pages, _, err := execute(sc)
+	if errors.Is(err, errHang) {
+		hangExit(id, sc, "Referrers")
+	}
 	outcome := classify(err)
 	state := []string{"U", "S", "N"}[finalState]
 	var api []*fakereg.Exchange
@@ -1468,17 +1898,22 @@ func tagSchemaCase(ts *TagSchema) {
 	r.SetReferrersCapability(false)
 	var pages [][]fakereg.Item
 	desc := ocispec.Descriptor{MediaType: ocispec.MediaTypeImageManifest, Digest: subject, Size: 7}
-	err := r.Referrers(context.Background(), desc, ts.AT, func(ds []ocispec.Descriptor) error {
-		p := make([]fakereg.Item, len(ds))
-		for i, d := range ds {
-			p[i] = fakereg.Item{Name: d.Digest.String(), ArtifactType: d.ArtifactType}
-		}
-		pages = append(pages, p)
-		if ts.CbFail == len(pages)-1 {
-			return errInjected
-		}
-		return nil
+	err := guarded(func() error {
+		return r.Referrers(context.Background(), desc, ts.AT, func(ds []ocispec.Descriptor) error {
+			p := make([]fakereg.Item, len(ds))
+			for i, d := range ds {
+				p[i] = fakereg.Item{Name: d.Digest.String(), ArtifactType: d.ArtifactType}
+			}
+			pages = append(pages, p)
+			if ts.CbFail == len(pages)-1 {
+				return errInjected
+			}
+			return nil
+		})
 	})
+	if errors.Is(err, errHang) {
+		hangExit(id, ts, "Referrers (tag schema)")
+	}
 	outcome := classify(err)
 	if errors.Is(err, errdef.ErrSizeExceedsLimit) {
 		outcome = "ErrSize"
@@ -1499,6 +1934,11 @@ func tagSchemaCase(ts *TagSchema) {
 		fmt.Sprintf("P %d %s O %s", len(pages), ps, outcome))
 	run.Count("tagschema_" + outcome)
 	run.Nontrivial(fmt.Sprintf("X%v", *ts))
+	if !ts.Absent && len(reg.Log) == 1 && reg.Log[0].Status == 200 {
+		bid := run.NewID()
+		run.Case(bid, fmt.Sprintf("XB %d %d", ts.Limit, len(doc)), strconv.Itoa(reg.Log[0].BytesRead()))
+		run.Count("bytes_consumed_index")
+	}
 	// oracle
 	fail := func(sig, msg string) { run.OracleFail(id, sig, "tag schema: "+msg, ts) }
 	// ground truth: every non-empty entry of the index once (first occurrence), of the requested type
@@ -1685,11 +2125,16 @@ func ociCase(ops []ociOp, last string, reopen bool) {
 		Tags(ctx context.Context, last string, fn func(tags []string) error) error
 	}
 	list := func(l tagLister) (got []string, calls int, err error) {
-		err = l.Tags(ctx, last, func(tags []string) error {
-			calls++
-			got = append(got, tags...)
-			return nil
+		err = guarded(func() error {
+			return l.Tags(ctx, last, func(tags []string) error {
+				calls++
+				got = append(got, tags...)
+				return nil
+			})
 		})
+		if errors.Is(err, errHang) {
+			hangExit(id, rep, "oci Tags")
+		}
 		return
 	}
 	got, calls, err := list(st)
@@ -1822,6 +2267,17 @@ func replay(cases []map[string]string) {
 			l, _ := strconv.ParseInt(c["limit"], 10, 64)
 			s, _ := strconv.ParseInt(c["size"], 10, 64)
 			sizeCase(l, s)
+		case "json":
+			lead, _ := strconv.Atoi(c["lead"])
+			jsonCase(c["input"], c["doc"], lead, c["complete"] == "true")
+		case "setquery":
+			var kv []string
+			json.Unmarshal([]byte(c["kv"]), &kv)
+			setQueryCase(c["raw"], kv...)
+		case "escape":
+			escapeCase(c["s"])
+		case "resolve":
+			resolveCase(c["bpath"], c["bquery"], c["ref"])
 		case "ping":
 			st, _ := strconv.Atoi(c["status"])
 			pingCase(c["state"], st, c["code"], c["ctype"])
@@ -1842,6 +2298,23 @@ func replay(cases []map[string]string) {
 				panic(fmt.Sprintf("replay: %v in %s", err, js))
 			}
 			regPageReplay(&rp)
+		case "collect":
+			var sc Scenario
+			raw := map[string]json.RawMessage{}
+			for k, v := range c {
+				switch k {
+				case "op", "kind", "repo", "last", "at", "state", "cursorkey", "cursorsalt":
+					b, _ := json.Marshal(v)
+					raw[k] = b
+				default:
+					raw[k] = json.RawMessage(v)
+				}
+			}
+			js, _ := json.Marshal(raw)
+			if err := json.Unmarshal(js, &sc); err != nil {
+				panic(fmt.Sprintf("replay: %v in %s", err, js))
+			}
+			collectCase(&sc)
 		case "wrap":
 			var sc Scenario
 			raw := map[string]json.RawMessage{}
@@ -1942,13 +2415,21 @@ func main() {
 	}
 	// listings
 	exhaustive(run.Scale(4, 7))
-	for i := 0; i < run.Scale(6000, 250000); i++ {
+	for i := 0; i < run.Scale(6000, 180000); i++ {
 		mx := 12
 		if r.Chance(1, 5) {
 			mx = run.Scale(40, 90)
 		}
-		listCase(genScenario(r, mx))
+		sc := genScenario(r, mx)
+		listCase(sc)
+		if sc.CbFail < 0 && r.Chance(1, 4) {
+			collectCase(sc)
+		}
 	}
+	// the string level: net/url resolution, setQueryParams, escaping
+	genStrings(r)
+	// json.Decoder: where the first value ends
+	genJSONCases(r)
 	// pingReferrers
 	for _, st := range []string{"U", "S", "N"} {
 		for _, status := range []int{0, 404, 500, 401, 403} {
@@ -1994,6 +2475,8 @@ func coverageFloors() {
 		return n
 	}
 	floors := map[string]int{
+		"collect_T_": 200, "collect_K_": 100, "collect_R_": 200, "bytes_consumed_index": 100, "bytes_consumed": 1000, "bytes_consumed_nontrivial": 100, "json_listing_body": 200, "json_OK": 200, "json_IN": 500, "string_loop": 2000, "string_first_request": 1000, "string_next_request_NEXT": 1000, "string_next_request_NONE": 300, "string_next_request_ERR": 10,
+		"string_set_query": 300, "string_escape": 200, "string_resolve_OK": 200, "string_resolve_ER": 50,
 		"cursor_opaque": 100, "hidden_entries": 100, "list_empty_page_with_link": 20, "link_raw_pairs": 50, "link_other_path": 50, "link_after_redirect": 30, "link_further_values": 100, "link_rel_first_stream": 5,
 		"list_link_missing_midway": 5, "json_shape_variant": 100, "registry_page": 1000, "exhaustive": 200,
 		"link_variant_0": 100, "link_variant_1": 100, "link_variant_2": 100, "link_variant_3": 100, "link_variant_4": 100,
